@@ -7,21 +7,21 @@
 // is undone with account.Manager.RevertToSnapshot when applyTx returns an error; the ways to get there
 // after state was touched are (read from tx_processor.go / box_tx.go / candidate_vote_tx.go):
 //
-//   1. a BOX whose later sub-transaction fails (RunBoxTxs executes the sub-transactions with applyTx one
-//      after the other WITHOUT snapshots of their own; the first error undoes the whole box): the
-//      earlier sub-transactions already moved votes (top-up over a 100-LEMO step, vote, re-vote,
-//      unregister), balances (transfers over the 200-LEMO step, gas, deposits, refunds) and VoteFor;
-//   2. the block gas limit reached INSIDE a box (buyGas of sub-transaction j returns ErrGasLimitReached:
-//      the "block is full" branch of ApplyTxs — the box is undone and dropped without being called invalid);
-//   3. a plain transaction that fails in handleTx after buyGas took the whole gas limit from the payer
-//      (with a high gas price that alone crosses the payer's 200-LEMO step): vote for a non-candidate,
-//      vote for the same candidate again, register / top-up after unregistering;
-//   4. EVM-internal rollback (on both paths, the transaction IS packaged as failed): a contract call
-//      that forwards its value to a voter and then REVERTs / runs into an invalid opcode.
-//   (A register / top-up cannot fail after its deposit moved: registerCandidate checks everything
-//   first; modifyCandidateInfo can only fail after the Transfer when the recorded deposit is missing or
-//   unparsable, which no transaction can bring about. The box time-out is the same revert as 1; it
-//   depends on the wall clock and is not driven.)
+//  1. a BOX whose later sub-transaction fails (RunBoxTxs executes the sub-transactions with applyTx one
+//     after the other WITHOUT snapshots of their own; the first error undoes the whole box): the
+//     earlier sub-transactions already moved votes (top-up over a 100-LEMO step, vote, re-vote,
+//     unregister), balances (transfers over the 200-LEMO step, gas, deposits, refunds) and VoteFor;
+//  2. the block gas limit reached INSIDE a box (buyGas of sub-transaction j returns ErrGasLimitReached:
+//     the "block is full" branch of ApplyTxs — the box is undone and dropped without being called invalid);
+//  3. a plain transaction that fails in handleTx after buyGas took the whole gas limit from the payer
+//     (with a high gas price that alone crosses the payer's 200-LEMO step): vote for a non-candidate,
+//     vote for the same candidate again, register / top-up after unregistering;
+//  4. EVM-internal rollback (on both paths, the transaction IS packaged as failed): a contract call
+//     that forwards its value to a voter and then REVERTs / runs into an invalid opcode.
+//     (A register / top-up cannot fail after its deposit moved: registerCandidate checks everything
+//     first; modifyCandidateInfo can only fail after the Transfer when the recorded deposit is missing or
+//     unparsable, which no transaction can bring about. The box time-out is the same revert as 1; it
+//     depends on the wall clock and is not driven.)
 //
 // Exploration (engine E2, same BFS as phase 1; scenarios R0 / R1 are further children of the root):
 // one event = one BLOCK = ordered list of items; an item is a plain transaction letter or a box
@@ -146,6 +146,10 @@ func init() {
 	reg("uC1+big", "deposit-top-up-insufficient-balance", kC1, new(big.Int).Add(params.MinCandidateDeposit, node.Lemo(5000)), "true")
 	reg("xC1", "unregister", kC1, new(big.Int), "false")
 	reg("xC2", "unregister", kC2, new(big.Int), "false")
+	// a FIRST registration (C3 is funded, never registered in the prefix): inside a box that is undone
+	// later, the deposit has moved and the votes were set before the rollback
+	reg("rC3", "register", kC3, new(big.Int).Add(params.MinCandidateDeposit, node.Lemo(150)), "true")
+	vote("vVC3", kV, kC3)
 	// contract calls by X carrying 150 LEMO: forwarded to V; forwarded then REVERT; forwarded then invalid opcode
 	call("kFwdV", "contract-forwards-to-voter", "fwdV", 150)
 	call("kRevV", "contract-forwards-to-voter-then-reverts", "revV", 150)
@@ -260,6 +264,7 @@ func rPrefixTxs(scen string) types.Transactions {
 		node.Transfer(fo, kX.Addr, node.Lemo(5000), e+2),
 		node.Transfer(fo, kC1.Addr, new(big.Int).Add(min, node.Lemo(1000)), e+3),
 		node.Transfer(fo, kC2.Addr, new(big.Int).Add(min, node.Lemo(1000)), e+4),
+		node.Transfer(fo, kC3.Addr, new(big.Int).Add(min, node.Lemo(1000)), e+9),
 		node.Register(kC1, min, profile(kC1, "true"), e+5),
 		node.Register(kC2, new(big.Int).Add(min, node.Lemo(150)), profile(kC2, "true"), e+6),
 	}
@@ -272,11 +277,11 @@ func rPrefixTxs(scen string) types.Transactions {
 
 var (
 	// plain items next to a box (before / after it) and in blocks without a box
-	rPlain = []string{"tXV150", "tVX150", "vVC1", "vVC2", "uC1+100", "xC1", "kFwdV", "kRevV", "kOogV", "dVnc$"}
+	rPlain = []string{"tXV150", "tVX150", "vVC1", "vVC2", "uC1+100", "xC1", "kFwdV", "kRevV", "kOogV", "dVnc$", "rC3"}
 	// sub-transactions; vXnc always fails
-	rSubs     = []string{"uC1+100", "vVC1", "vVC2", "tXV150", "tVX150", "xC1", "vXnc"}
-	rSubsMore = []string{"vWC2", "uC1+50", "kRevV", "tWbig", "uC1+big", "xC2"}
-	rPlainMore = []string{"dVbig$", "vWC2", "uC1+50", "tXV50", "xC2", "kNewRevV"}
+	rSubs      = []string{"uC1+100", "vVC1", "vVC2", "tXV150", "xC1", "rC3", "vXnc"}
+	rSubsMore  = []string{"tVX150", "vWC2", "uC1+50", "kRevV", "tWbig", "uC1+big", "xC2", "vVC3"}
+	rPlainMore = []string{"dVbig$", "vWC2", "uC1+50", "tXV50", "xC2", "kNewRevV", "vVC3"}
 )
 
 // rBoxes lists every box of 1..n sub-transactions over subs, each alone and with every "@gJ".
@@ -389,6 +394,7 @@ func rMenu(depth int) []string {
 		m = append(m, rWithBox(rBoxes(rSubs, 2), rPlain[:6], true)...)
 		m = append(m, rWithBox(rBoxes(allSubs, 2), rPlain, false)...)
 		m = append(m, rWithBox(rBoxes([]string{"uC1+100", "vVC1", "vVC2", "tXV150", "xC1", "vXnc"}, 3), []string{"tXV150", "vVC1", "uC1+100", "xC1"}, false)...)
+		m = append(m, rWithBox(rBoxes([]string{"rC3", "vVC3", "xC1", "vXnc"}, 3), []string{"rC3", "vVC3"}, false)...)
 	case core.Thorough() && depth == 2:
 		// second block: one plain item; a one-sub-transaction box; a box undone by its last sub-transaction
 		m = append(m, rPlainBlocks(rPlain, 1)...)
@@ -416,13 +422,13 @@ func isRScenario(s string) bool { return s == "R0" || s == "R1" }
 // one block on both paths
 
 type rResult struct {
-	status    string // accepted | not-producible | not-encodable | rejected
-	detail    string
-	block     *types.Block
-	packaged  []bool // per item
-	invalid   []bool // per item: the miner called it invalid
-	minerSt   []acct
-	validSt   []acct
+	status   string // accepted | not-producible | not-encodable | rejected
+	detail   string
+	block    *types.Block
+	packaged []bool // per item
+	invalid  []bool // per item: the miner called it invalid
+	minerSt  []acct
+	validSt  []acct
 }
 
 func (w *world) deliverR(txs types.Transactions, extra string, gasAt int) (res rResult) {
@@ -947,7 +953,7 @@ func rRuleText() string {
 	} else {
 		t += fmt.Sprintf("one block after the prefix out of %d (every block of <= 2 plain items over %d letters; every box of <= 2 sub-transactions over %d letters, alone and with every @gJ, with <= 1 plain neighbour before or after); ", len(rMenu(1)), len(rPlain), len(rSubs))
 	}
-	return t + "plain items: transfers over V's 200-LEMO step in both directions, vote / re-vote, top-up over the 100-LEMO step, unregister, contract calls that forward 150 LEMO to V (ok / then REVERT / then invalid opcode), a vote for a non-candidate whose gas limit x price alone crosses V's step (discarded); sub-transactions: top-up, vote, re-vote, both transfers, unregister, a vote that always fails (failures also arise from the state: vote for the same candidate again, register / vote after unregistering); oracle = the tally equation on the state the miner saved AND on the validator's, after every block the miner produced whatever it discarded; a validator refusing the miner's block is a violation"
+	return t + "plain items: transfers over V's 200-LEMO step in both directions, vote / re-vote, top-up over the 100-LEMO step, unregister, a first registration, contract calls that forward 150 LEMO to V (ok / then REVERT / then invalid opcode), a vote for a non-candidate whose gas limit x price alone crosses V's step (discarded); sub-transactions: top-up, vote, re-vote, transfer to the voter, unregister, a FIRST registration (deposit moved and votes set before the box is undone), a vote that always fails (failures also arise from the state: vote for the same candidate again, register / vote after unregistering); oracle = the tally equation on the state the miner saved AND on the validator's, after every block the miner produced whatever it discarded; a validator refusing the miner's block is a violation"
 }
 
 // rSelfCheck is the non-vacuity gate of phase R.
@@ -957,8 +963,10 @@ func rSelfCheck(r *core.Result) {
 		"R/hit/box-undone-by-last-sub-after/deposit-top-up",
 		"R/hit/box-undone-by-last-sub-after/vote",
 		"R/hit/box-undone-by-last-sub-after/transfer-to-voter",
-		"R/hit/box-undone-by-last-sub-after/transfer-from-voter",
 		"R/hit/box-undone-by-last-sub-after/unregister",
+		"R/hit/box-undone-by-last-sub-after/register",
+		"R/hit/box-undone-at-gas-limit-after/register",
+		"R/hit/register",
 		"R/hit/box-undone-at-gas-limit-after/deposit-top-up",
 		"R/hit/box-undone-at-gas-limit-after/vote",
 		"R/hit/box-undone-at-gas-limit-after/unregister",
@@ -976,7 +984,13 @@ func rSelfCheck(r *core.Result) {
 	}
 	var missing []string
 	for _, k := range need {
-		if !r.Distinct[k] {
+		ok := false
+		for _, alt := range strings.Split(k, "|") {
+			if r.Distinct[alt] {
+				ok = true
+			}
+		}
+		if !ok {
 			missing = append(missing, k)
 		}
 	}
